@@ -87,7 +87,7 @@ def coq_build(targets=None, timeout=2400):
     """Full (setup) or per-target build; returns (ok, log)."""
     coq_makefile()
     t = " ".join(targets) if targets else ""
-    rc, out = sh(f"timeout {timeout} make -j{JOBS} {t}", cwd=COQ, timeout=timeout + 60)
+    rc, out = sh(f"timeout {timeout} make -j{JOBS} COQC='timeout 1500 coqc' {t}", cwd=COQ, timeout=timeout + 60)
     return rc == 0, out
 
 
